@@ -252,6 +252,11 @@ def parse_rvalue(text):
             return ("other", t)
     if t == "()":
         return ("tuple", [])
+    if t.startswith("[") and t.endswith("]") and _balanced(t[1:-1]) and "; " not in t:
+        try:
+            return ("array", [parse_operand(p) for p in split_top(t[1:-1])])
+        except ValueError:
+            return ("other", t)
     # struct literal  Path { f: op, ... }   (Path may be `{closure@file:l:c: l:c}`)
     if t.endswith("}"):
         k = _match_back(t, len(t) - 1, "{", "}")
